@@ -146,7 +146,7 @@ def run(ctx: Ctx):
     s = Stream(ctx, "random trees with adversarial names x random alias maps")
     rng = ctx.rng("labels")
     cases = []
-    for _ in range(ctx.size(15000, 120000)):
+    for _ in range(ctx.size(15000, 600000)):
         nodes = gen.random_tree(rng, max_nodes=10, comps=gen.ADVERSARIAL)
         k = rng.randint(0, min(4, len(nodes)))
         mods = rng.sample(nodes, k)
